@@ -51,6 +51,63 @@ fn spec_ber_exp_bytes(z: u64, bytes: &[u8]) -> Option<bool> {
     }
 }
 
+// ---- native witness search for sampler_z (bounded; witness production only) ----
+/// SamplerZ (Algorithm 15) evaluated in doubles, over this crate's base_sampler and ber_exp
+/// (both under contract in U-SAMP), drawing the same values in the same order from `rng`.
+pub(crate) fn ref_sampler_z(mu: f64, sigma: f64, sigma_min: f64, rng: &mut dyn rand::RngCore) -> i64 {
+    use rand::Rng;
+    let sigma_max = 1.8205f64;
+    let inv_2smax2 = 1.0 / (2.0 * sigma_max * sigma_max);
+    let isigma = 1.0 / sigma;
+    let dss = 0.5 * isigma * isigma;
+    let fl = mu.floor();
+    let r = mu - fl;
+    let ccs = sigma_min * isigma;
+    loop {
+        let z0 = base_sampler(rng.gen()) as i64;
+        let byte: u8 = rng.gen();
+        let b = (byte & 1) as i64;
+        let z = b + (2 * b - 1) * z0;
+        let zr = z as f64 - r;
+        let x = zr * zr * dss - (z0 * z0) as f64 * inv_2smax2;
+        if ber_exp(x, ccs, rng.gen()) {
+            return z.saturating_add(fl as i64);
+        }
+    }
+}
+pub(crate) fn samplerz_case(mu: f64, sigma: f64, sigma_min: f64, seed: u64) -> Result<(), String> {
+    use rand::SeedableRng;
+    let got = std::panic::catch_unwind(move || {
+        let mut rng = rand::rngs::StdRng::seed_from_u64(seed);
+        sampler_z(mu, sigma, sigma_min, &mut rng) as i64
+    });
+    let got = match got { Ok(v) => v, Err(_) => return Err(format!("sampler_z({:e}, {}, {}) panics", mu, sigma, sigma_min)) };
+    let mut rng = rand::rngs::StdRng::seed_from_u64(seed);
+    let want = ref_sampler_z(mu, sigma, sigma_min, &mut rng);
+    if mu.abs() < 9.0e18 && got != want { return Err(format!("sampler_z({:e}, {}, {}) = {} but Algorithm 15 on the same random bytes gives {}", mu, sigma, sigma_min, got, want)); }
+    Ok(())
+}
+pub(crate) fn search_samplerz(seed: u64) -> Option<String> {
+    let mut st = seed.wrapping_mul(6364136223846793005).wrapping_add(1442695040888963407) | 1;
+    let mut rnd = move || { st ^= st << 13; st ^= st >> 7; st ^= st << 17; st };
+    let arg = |mu: f64, sg: f64, sm: f64, sd: u64| format!("argv=samplerz-case,{:016x},{:016x},{:016x},{}", mu.to_bits(), sg.to_bits(), sm.to_bits(), sd);
+    for sm in [1.2778336969128337f64, 1.298280334344292] {
+        // extreme centres: totality
+        for mu in [0.0f64, -0.0, 0.5, -0.5, 32766.5, -32768.5, 40000.0, -40000.0, 1.0e10, -1.0e10, 9.3e18, -9.3e18, 1.0e300, -1.0e300] {
+            for sg in [sm, 1.5, 1.8205] {
+                if let Err(why) = samplerz_case(mu, sg, sm, 7) { return Some(format!("{} | {}", why, arg(mu, sg, sm, 7))); }
+            }
+        }
+        // agreement with Algorithm 15 on the same bytes
+        for k in 0..20000u64 {
+            let mu = ((rnd() % 2_000_001) as f64 - 1_000_000.0) / 1000.0;
+            let sg = sm + (1.8205 - sm) * ((rnd() % 1001) as f64 / 1000.0);
+            if let Err(why) = samplerz_case(mu, sg, sm, k) { return Some(format!("{} | {}", why, arg(mu, sg, sm, k))); }
+        }
+    }
+    None
+}
+
 harnesses! {
     /// C09: base_sampler(u) == #{ i : u < RCDT[i] } for every 72-bit u
     #[kani::unwind(20)]
